@@ -114,7 +114,10 @@ func (evt *catchEvent) NextAction(ctx context.Context, flow Flow) chan IAction {
 		go evt.run(ctx, sender)
 	})
 
-	response := make(chan IAction)
+	// buffered: the flow that asked may be gone by the time the event arrives
+	// (an alternative withdrawn by an event-based gateway); the node must not
+	// block on it, or its inbox fills up and event delivery blocks
+	response := make(chan IAction, 1)
 	evt.mch <- nextActionMessage{response: response, flow: flow}
 	return response
 }
